@@ -1,0 +1,11 @@
+package state
+
+// Operation codes reported to the verification observer (build tag `verif`).
+// Without the tag verifObserve is an empty function and nothing is observed.
+const (
+	VerifOpGetCached = iota // GetTrieNode served from the state cache
+	VerifOpGetTrie          // GetTrieNode served from the trie
+	VerifOpGetMiss          // GetTrieNode failed (value not present / node missing)
+	VerifOpInsert           // InsertTrieNode succeeded
+	VerifOpDelete           // DeleteTrieNode succeeded
+)
